@@ -83,6 +83,14 @@ func VerifExtractWithParagraphs(fragments []text.TextFragment, width, height flo
 	return (&Extractor{}).extractWithParagraphs(fragments, verifPage(width, height))
 }
 
+// VerifIsCharacterLevel exposes isCharacterLevel.
+func VerifIsCharacterLevel(fragments []text.TextFragment) bool { return isCharacterLevel(fragments) }
+
+// VerifDetectMultiColumn exposes detectMultiColumn.
+func VerifDetectMultiColumn(fragments []text.TextFragment, pageWidth, pageHeight float64) bool {
+	return detectMultiColumn(fragments, pageWidth, pageHeight)
+}
+
 func (verifResolver) ResolveReference(ref core.IndirectRef) (core.Object, error) {
 	return core.Null{}, nil
 }
